@@ -132,6 +132,8 @@ class StrEval:
             raise AnalysisError(f"dispatcher test reads unknown attribute {t}")
         if isinstance(e, (ast.List, ast.Tuple)):
             return [self.ev(x) for x in e.elts]
+        if isinstance(e, ast.Set):
+            return {self.ev(x) for x in e.elts}
         if isinstance(e, ast.UnaryOp) and isinstance(e.op, ast.Not):
             return not self.ev(e.operand)
         if isinstance(e, ast.BoolOp):
